@@ -30,6 +30,7 @@ def main():
     repo = Repo.from_disk(sys.argv[1] if len(sys.argv) > 1 else "/repo")
     out = {}
     names = {}
+    positional = {}
     for h in inventory(repo):
         for t in h.targets:
             f = resolve(t)
@@ -45,8 +46,9 @@ def main():
                     d[p] = prm.default
             out[t] = d
             names[t] = [p for p, prm in sig.parameters.items() if prm.kind not in (prm.VAR_POSITIONAL, prm.VAR_KEYWORD)]
+            positional[t] = [p for p, prm in sig.parameters.items() if prm.kind in (prm.POSITIONAL_ONLY, prm.POSITIONAL_OR_KEYWORD)]
     with open(os.path.join(VERIF, "spec", "numpy_defaults.json"), "w", encoding="utf-8") as f:
-        json.dump({"numpy_version": np.__version__, "defaults": out, "params": names}, f, indent=0, sort_keys=True)
+        json.dump({"numpy_version": np.__version__, "defaults": out, "params": names, "positional": positional}, f, indent=0, sort_keys=True)
     print(f"{len(out)} functions, numpy {np.__version__}")
 
 
